@@ -239,6 +239,38 @@ fn handle(line: &str) -> String {
                 .collect();
             format!("{} {}", v.len(), v.join(" "))
         }
+        "attacksafter" => {
+            // attacksafter <fen...>: the predecessor is queried first (attack sets of both colours, check flags, legal moves);
+            // then for every legal move, in generation order, what the SUCCESSOR OBJECT built by the public make-move answers:
+            // all attacks and pawn attacks of both colours and the three check flags
+            let Some(state) = parse_fen(&parts[1..].join(" ")) else {
+                return "badfen".into();
+            };
+            let _ = state.board().colored_attacks(Color::White);
+            let _ = state.board().colored_attacks(Color::Black);
+            let _ = state.board().colored_pawn_attacks(Color::White);
+            let _ = state.board().colored_pawn_attacks(Color::Black);
+            let _ = state.is_check();
+            let set = MoveGenerator::compute_legal_moves(&state);
+            let v: Vec<String> = set
+                .moves()
+                .iter()
+                .map(|r| match State::by_performing_move(&state, &r.0) {
+                    Ok(n) => format!(
+                        "{},{},{},{},{}{}{}",
+                        bb(n.board().colored_attacks(Color::White)),
+                        bb(n.board().colored_attacks(Color::Black)),
+                        bb(n.board().colored_pawn_attacks(Color::White)),
+                        bb(n.board().colored_pawn_attacks(Color::Black)),
+                        n.is_check() as u8,
+                        n.board().is_check(Color::White) as u8,
+                        n.board().is_check(Color::Black) as u8
+                    ),
+                    Err(_) => "perform-error".into(),
+                })
+                .collect();
+            format!("{} {}", v.len(), v.join(" "))
+        }
         "slider" => {
             let sq = Square::try_from(parts[2].parse::<u8>().unwrap()).unwrap();
             let occ = BitBoard::from(parts[3].parse::<u64>().unwrap());
@@ -325,6 +357,55 @@ fn handle(line: &str) -> String {
                 })
                 .collect();
             format!("{} {}", v.len(), v.join(" "))
+        }
+        "playline" => {
+            // playline <seed> <fen with _> <raw>*: the moves are made one after the other on the OBJECT with the public make-move
+            // (never re-read from FEN), every object on the way is QUERIED the way a game queries it (legal moves, attacks of both
+            // colours) before the next move is made; per ply `fen;raw,raw,…;hash;evalW;evalB` of the object reached and
+            // ` REREAD-DIFFERS …` if the object re-read from its own FEN answers anything differently
+            let seed: u64 = parts[1].parse().unwrap();
+            let Some(mut cur) = parse_fen(&parts[2].replace('_', " ")) else {
+                return "badfen".into();
+            };
+            let hasher = ZobristHasher::with(&mut ChaCha8Rng::seed_from_u64(seed));
+            let descr = |s: &State| -> String {
+                let set = MoveGenerator::compute_legal_moves(s);
+                let ms: Vec<String> = set.moves().iter().map(|r| r.0.as_raw().to_string()).collect();
+                let fen = into_notation::<_, Fen>(s).to_string().replace(' ', "_");
+                format!(
+                    "{};{};{};{};{}",
+                    fen,
+                    ms.join(","),
+                    hasher.hash(s),
+                    i32::from(Evaluator::default().evaluate(s, Color::White, 1)),
+                    i32::from(Evaluator::default().evaluate(s, Color::Black, 1))
+                )
+            };
+            let mut out: Vec<String> = vec![];
+            for tok in &parts[3..] {
+                let raw: u32 = tok.parse().unwrap();
+                // the predecessor is queried before the move is made
+                let _ = cur.board().colored_attacks(Color::White);
+                let _ = cur.board().colored_attacks(Color::Black);
+                let set = MoveGenerator::compute_legal_moves(&cur);
+                let Some(r) = set.moves().iter().find(|r| r.0.as_raw() == raw) else {
+                    out.push("nomove".into());
+                    break;
+                };
+                let Ok(next) = State::by_performing_move(&cur, &r.0) else {
+                    out.push("perform-error".into());
+                    break;
+                };
+                let d = descr(&next);
+                let fen = into_notation::<_, Fen>(&next).to_string();
+                let d2 = match parse_fen(&fen) {
+                    Some(s2) => descr(&s2),
+                    None => "badfen".into(),
+                };
+                out.push(if d == d2 { d } else { format!("{} REREAD-DIFFERS {}", d, d2) });
+                cur = next;
+            }
+            out.join(" | ")
         }
         "eval" => {
             // eval <w|b> <ply> <fen...>
